@@ -32,6 +32,9 @@ import (
 	"sort"
 	"strings"
 	"text/template/parse"
+
+	"gtverif/internal/gentmpl"
+	"gtverif/internal/srcset"
 )
 
 type guard struct {
@@ -513,80 +516,44 @@ func galFuncs(name string, fs []tfunc) string {
 // ifaceMethods returns the method names of interface `name` declared in package dir, in source
 // order, with the names of embedded interfaces prefixed by "embed:".
 func ifaceMethods(dir, name string) ([]string, error) {
-	fset := token.NewFileSet()
-	pkgs, err := parser.ParseDir(fset, dir, func(fi os.FileInfo) bool {
-		return !strings.HasSuffix(fi.Name(), "_test.go")
-	}, 0)
+	// the package's file set as the compiler selects it (build constraints, sibling files)
+	p, err := srcset.Load(dir)
 	if err != nil {
 		return nil, err
 	}
-	for _, p := range pkgs {
-		for _, f := range p.Files {
-			for _, d := range f.Decls {
-				gd, ok := d.(*ast.GenDecl)
-				if !ok {
-					continue
-				}
-				for _, s := range gd.Specs {
-					ts, ok := s.(*ast.TypeSpec)
-					if !ok || ts.Name.Name != name {
-						continue
-					}
-					it, ok := ts.Type.(*ast.InterfaceType)
-					if !ok {
-						return nil, fmt.Errorf("%s is not an interface", name)
-					}
-					var out []string
-					for _, m := range it.Methods.List {
-						if len(m.Names) == 0 {
-							if id, ok := m.Type.(*ast.Ident); ok {
-								out = append(out, "embed:"+id.Name)
-							} else {
-								out = append(out, "embed:?")
-							}
-							continue
-						}
-						for _, n := range m.Names {
-							out = append(out, n.Name)
-						}
-					}
-					return out, nil
-				}
-			}
-		}
-	}
-	return nil, fmt.Errorf("interface %s not found in %s", name, dir)
-}
-
-// methodsOn returns the names of the methods declared on type `typ` (value or pointer receiver).
-func methodsOn(dir, typ string) ([]string, error) {
-	fset := token.NewFileSet()
-	pkgs, err := parser.ParseDir(fset, dir, func(fi os.FileInfo) bool {
-		return !strings.HasSuffix(fi.Name(), "_test.go")
-	}, 0)
+	ts, err := p.TypeSpec(name)
 	if err != nil {
 		return nil, err
+	}
+	it, ok := ts.Type.(*ast.InterfaceType)
+	if !ok {
+		return nil, fmt.Errorf("%s is not an interface", name)
 	}
 	var out []string
-	for _, p := range pkgs {
-		for _, f := range p.Files {
-			for _, d := range f.Decls {
-				fd, ok := d.(*ast.FuncDecl)
-				if !ok || fd.Recv == nil || len(fd.Recv.List) != 1 {
-					continue
-				}
-				t := fd.Recv.List[0].Type
-				if st, ok := t.(*ast.StarExpr); ok {
-					t = st.X
-				}
-				if id, ok := t.(*ast.Ident); ok && id.Name == typ {
-					out = append(out, fd.Name.Name)
-				}
+	for _, m := range it.Methods.List {
+		if len(m.Names) == 0 {
+			if id, ok := m.Type.(*ast.Ident); ok {
+				out = append(out, "embed:"+id.Name)
+			} else {
+				out = append(out, "embed:?")
 			}
+			continue
+		}
+		for _, n := range m.Names {
+			out = append(out, n.Name)
 		}
 	}
-	sort.Strings(out)
 	return out, nil
+}
+
+// methodsOn returns the names of the methods declared on type `typ` (value or pointer receiver)
+// in the package's file set.
+func methodsOn(dir, typ string) ([]string, error) {
+	p, err := srcset.Load(dir)
+	if err != nil {
+		return nil, err
+	}
+	return p.MethodsOf(typ), nil
 }
 
 func galStrs(name string, xs []string) string {
@@ -605,12 +572,19 @@ func main() {
 	sb.WriteString("(* TmplMethodsGen.v — REGENERATED on every run by harness/cmd/xlate_tmpl_methods from the\n" +
 		"   templates and interface definitions of the current tree.  Do not edit. *)\n" +
 		"From Coq Require Import String List.\nFrom GT Require Import GenBuildModel.\nImport ListNotations.\nLocal Open Scope string_scope.\n\n")
-	for _, t := range []struct{ def, path string }{
-		{"genum_funcs", "genum/gen/enumTemplate.gotmpl"},
-		{"gerror_funcs", "gerror/gen/gerror.gotmpl"},
-		{"gsort_funcs", "gsort/gen/gsort.gotmpl"},
+	for _, t := range []struct{ def, dir string }{
+		{"genum_funcs", "genum/gen"},
+		{"gerror_funcs", "gerror/gen"},
+		{"gsort_funcs", "gsort/gen"},
 	} {
-		fs, us, err := parseTemplate(filepath.Join(*repo, t.path))
+		// the template the generator executes: through the package's file set and go:embed; refused
+		// when an init() or other code of the package can swap or reconfigure it
+		found, err := gentmpl.Find(filepath.Join(*repo, t.dir))
+		if err != nil {
+			fmt.Fprintln(os.Stderr, "xlate_tmpl_methods:", err)
+			os.Exit(1)
+		}
+		fs, us, err := parseTemplate(found.File)
 		if err != nil {
 			fmt.Fprintln(os.Stderr, "xlate_tmpl_methods:", err)
 			os.Exit(1)
